@@ -374,8 +374,6 @@ WriteRead(npe, nb, named, base) ==
                 nN |-> IF npe = 6 THEN H.nN ELSE m.nN]
   /\ UNCHANGED m
 
-Forget == out # None /\ out' = None /\ UNCHANGED m
-
 Next ==
   \/ \E sz \in StructSizes : Structured(sz[1], sz[2])
   \/ Ring
